@@ -78,4 +78,6 @@ with open("/verif/seeded/REGRESSION.md", "w") as f:
     for r in rows:
         f.write("| %s | %s | %s | %s | %s |\n" % r)
 sh("git -C /repo worktree remove --force %s; git -C /repo worktree prune; rm -rf %s %s" % (WT, WT, BD))
+# the checks rewrote /verif/evidence/<id>.json from runs against the patched scratch trees: put back the committed evidence (runs against /repo)
+sh("git -C /verif checkout -- evidence/")
 print("done")
